@@ -5,6 +5,7 @@ import (
 	"io"
 	"path"
 	"regexp"
+	"strings"
 
 	"github.com/spf13/afero"
 	"google.golang.org/protobuf/encoding/protojson"
@@ -134,6 +135,22 @@ func GeneratePBBinaryMessage(w io.Writer, m protoreflect.ProtoMessage) error {
 	return err
 }
 
+// pathElement turns one part of an application name into exactly one directory name. A part may hold any text
+// (`A%2FB` is the one-part name "A/B"): taken literally, a separator adds a level - "A/B" and `A :: B` then share
+// one file and one of the two applications is lost - and ".." leaves the base path. `%`, `/` and `\` are written
+// as %25, %2F and %5C, and the names "", "." and ".." as %, %2E and %2E%2E; every other part is unchanged.
+func pathElement(part string) string {
+	switch part {
+	case "":
+		return "%"
+	case ".":
+		return "%2E"
+	case "..":
+		return "%2E%2E"
+	}
+	return strings.NewReplacer("%", "%25", "/", "%2F", `\`, "%5C").Replace(part)
+}
+
 /*
 	 Creates a directory path based on the Application name. Returns an open file descriptor.
 	 E.g. if the Application is:
@@ -147,7 +164,11 @@ func CreatePathForApplication(
 	appdata *sysl.Application,
 	fileName string,
 	fs afero.Fs) (afero.File, error) {
-	dirName := path.Join(append([]string{basePath}, appdata.Name.GetPart()...)...)
+	elems := []string{basePath}
+	for _, part := range appdata.Name.GetPart() {
+		elems = append(elems, pathElement(part))
+	}
+	dirName := path.Join(elems...)
 	err := fs.MkdirAll(dirName, 0755)
 	if err != nil {
 		return nil, err
